@@ -366,7 +366,9 @@ func checkHTMLFragment(frag string, value string, locs [][2]int) string {
 	text := plain.String()
 	// allowed spans: single locations and unions of overlapping/adjacent locations
 	allowed := map[[2]int]bool{}
-	sort.Slice(locs, func(i, j int) bool { return locs[i][0] < locs[j][0] || locs[i][0] == locs[j][0] && locs[i][1] < locs[j][1] })
+	sort.Slice(locs, func(i, j int) bool {
+		return locs[i][0] < locs[j][0] || locs[i][0] == locs[j][0] && locs[i][1] < locs[j][1]
+	})
 	for i := range locs {
 		s, e := locs[i][0], locs[i][1]
 		allowed[[2]int{s, e}] = true
@@ -457,7 +459,9 @@ func TestC19Highlight(t *testing.T) {
 		req := bleve.NewSearchRequestOptions(dq, 10, 0, false)
 		req.Highlight = bleve.NewHighlightWithStyle(style)
 		req.IncludeLocations = true
-		ctxDump = func() string { return fmt.Sprintf("C19 highlight analyzer %s engine %s terms %q values %q", an, eng, qs, values) }
+		ctxDump = func() string {
+			return fmt.Sprintf("C19 highlight analyzer %s engine %s terms %q values %q", an, eng, qs, values)
+		}
 		res, err := SearchWatchdog(idx, req)
 		if err != nil {
 			t.Fatalf("highlight search (analyzer %s, %s, terms %q, values %q): %v", an, eng, qs, values, err)
